@@ -397,9 +397,20 @@ static void runTransport(int run, const Value &in) {
   vt::emit(ev);
 }
 
+static void runT1dOnce(int run, const Value &in, int rot);
+// The instance, then the same positions with the demands rotated by one sink (another pattern of zero demands), then the instance
+// again: three independent problems in one process - nothing of one may be remembered for the next.
 static void runT1d(int run, const Value &in) {
+  runT1dOnce(run, in, 0);
+  if (in.has("qscale") && in["d"].size() >= 2) {
+    runT1dOnce(run, in, 1);
+    runT1dOnce(run, in, 0);
+  }
+}
+static void runT1dOnce(int run, const Value &in, int rot) {
   const int qs = in.has("qscale") ? (int)in["qscale"].asInt() : 0;
   std::vector<long long> s0 = in["s"].longs(), d0 = in["d"].longs();
+  if (rot) std::rotate(d0.begin(), d0.begin() + rot, d0.end());
   for (auto &x : s0) x <<= qs;
   for (auto &x : d0) x <<= qs;
   Transportation1d pb(in["u"].longs(), in["v"].longs(), s0, d0);
@@ -743,6 +754,17 @@ static void runNetw(int run, const Value &in) {
     Value e = vt::ev("NetScale");
     e.set("run", run).set("k", k).set("dyadic", true).set("model", in["model"]);
     e.set("b0", bitsOf(b0)).set("s0", bitsOf(s0)).set("b1", bitsOf(b1)).set("s1", bitsOf(s1)).set("b2", bitsOf(b2)).set("s2", bitsOf(s2));
+    vt::emit(e);
+  }
+  {
+    // a cell that sits exactly on its target is still pulled with strength / cutoff: the penalised solve from the placement T with
+    // targets T and with targets T + 1/64 (both closer than every cutoff used here) differ by at most that shift
+    NetModel m = buildNetModel(in, 1.0);
+    std::vector<float> near = tgt;
+    for (float &v : near) v += 1.0f / 64.0f;
+    std::vector<float> yEq = m.solveWithPenalty(tgt, tgt, str, p), yNear = m.solveWithPenalty(tgt, near, str, p);
+    Value e = vt::ev("NetTie");
+    e.set("run", run).set("model", in["model"]).set("yEq", fix10(yEq)).set("yNear", fix10(yNear));
     vt::emit(e);
   }
   for (double f : {2.5, 7.0}) {
